@@ -28,7 +28,7 @@ Definition lib_fmap (i : Z) (v : dval) : option dval :=
 Definition lib_flat (i : Z) (v : dval) : list dval :=
   let k := key v in
   if i =? 0 then zrange 0 (k mod 3) else zrange k (k + 2).
-Definition lib_fold (a v : dval) : dval := DInt (key a * 7 + key v).
+Definition lib_fold (a v : dval) : dval := DInt ((key a * 7 + key v) mod 1000003).
 
 Local Open Scope string_scope.
 
